@@ -375,7 +375,16 @@ var abortCalls = []Spec{
 func isTainted(v ssa.Value) bool {
 	return SliceAny(v, func(x ssa.Value) bool {
 		cl, _ := CallOfValue(x)
-		return cl != nil && MatchCC(&cl.Call, intParsers...)
+		if cl != nil && MatchCC(&cl.Call, intParsers...) {
+			return true
+		}
+		// a length the peer announced: Response.ContentLength / Request.ContentLength (net/http parsed it from the wire)
+		if fv, base := FieldOf(Strip(x)); fv != nil && fv.Name() == "ContentLength" {
+			if pk, _ := NamedOf(base.Type()); pk == "net/http" {
+				return true
+			}
+		}
+		return false
 	})
 }
 
@@ -515,6 +524,10 @@ func (p *Prog) PanicSites(fns map[*ssa.Function]bool) ([]PanicSite, error) {
 							}
 						}
 					}
+					// v.IsNil() on a reflect.Value panics unless v's kind is chan, func, interface, map, pointer or slice
+					if f := CalleeObj(&x.Call); f != nil && f.Pkg() != nil && f.Pkg().Path() == "reflect" && f.Name() == "IsNil" && RecvTypeName(f) == "Value" && len(x.Call.Args) == 1 {
+						add("reflectnil", x.Pos(), reflectNilGuard(x))
+					}
 					// library calls that panic on a negative count: slices.Grow(s, n), strings.Repeat / bytes.Repeat(s, n),
 					// (*strings.Builder).Grow(n), (*bytes.Buffer).Grow(n)
 					if idx := negativeCountArg(&x.Call); idx >= 0 && idx < len(x.Call.Args) {
@@ -538,6 +551,37 @@ func (p *Prog) PanicSites(fns map[*ssa.Function]bool) ([]PanicSite, error) {
 	}
 	sort.SliceStable(out, func(i, j int) bool { return out[i].Pos < out[j].Pos })
 	return out, nil
+}
+
+// reflectNilGuard: the IsNil call is dominated by a test that the value's Kind() is a nillable kind.
+func reflectNilGuard(at *ssa.Call) string {
+	recv := at.Call.Args[0]
+	nillable := map[int64]bool{18: true, 19: true, 20: true, 21: true, 22: true, 23: true, 26: true} // reflect.Chan..Slice, UnsafePointer
+	for _, f := range CmpFactsAt(at) {
+		if f.Op != token.EQL || f.Y == nil {
+			continue
+		}
+		for _, pr := range [][2]ssa.Value{{f.X, f.Y}, {f.Y, f.X}} {
+			k, isK := ConstInt(pr[1])
+			if !isK || !nillable[k] {
+				continue
+			}
+			if kc, ok := Strip(pr[0]).(*ssa.Call); ok {
+				if g := CalleeObj(&kc.Call); g != nil && g.Name() == "Kind" && g.Pkg() != nil && g.Pkg().Path() == "reflect" && len(kc.Call.Args) == 1 {
+					if sameValue(kc.Call.Args[0], recv) || kc.Call.Args[0] == recv {
+						return "dominated by Kind() == a nillable kind"
+					}
+					// the same variable read twice (a spilled reflect.Value): loads of one cell
+					a, isA := kc.Call.Args[0].(*ssa.UnOp)
+					b, isB := recv.(*ssa.UnOp)
+					if isA && isB && a.X == b.X {
+						return "dominated by Kind() == a nillable kind"
+					}
+				}
+			}
+		}
+	}
+	return ""
 }
 
 // negativeCountArg: the index (in Call.Args, receiver included) of the count argument of a standard-library call that
